@@ -111,6 +111,26 @@ def tie_edges(ctx, model, v, flow_param, info_param, env_param):
     """Edges (and blocks, converted to their out-edges) that tie the recorded amount to what arrives."""
     edges = []
     desc = []
+    def closure_ties(fb, ft):
+        """the predicate closure of find / any / position compares the coin's amount with the declared amount"""
+        for co in v.origins_of_operand(ft["args"][1], at=v.at_term(fb)):
+            if co.kind != "closure" or co.a not in model.fnsrc:
+                continue
+            cv = model.view(co.a)
+            cb = int(co.b.rsplit(":bb", 1)[1])
+            chain = ((v.path, cb, "closure"),)
+            for sb, st in cv.iter_calls():
+                if not re.search(r"as std::cmp::PartialEq(<.*>)?>::eq$", mname(st)) or len(st["args"]) != 2:
+                    continue
+                at = cv.at_term(sb)
+                oa = resolve(model, chain, cv, cv.origins_of_operand(st["args"][0], at=at), taint=True)
+                ob = resolve(model, chain, cv, cv.origins_of_operand(st["args"][1], at=at), taint=True)
+                el = lambda os_: any(((o.kind == "param" and o.b == cv.path and o.a == 2) or o.kind == "closure_arg")
+                                     and o.proj and o.proj[-1] == "amount" for o in os_)
+                fl = lambda os_: any(o.kind == "param" and o.b == v.path and o.a == flow_param and "amount" in o.proj for o in os_)
+                if (el(oa) and fl(ob)) or (el(ob) and fl(oa)):
+                    return True
+        return False
     # T1: funds.iter().find(|c| .. c.amount == flow_asset.amount).ok_or(..)?
     for b in sorted(v.live_blocks()):
         te = try_edges(v, b)
@@ -125,24 +145,17 @@ def tie_edges(ctx, model, v, flow_param, info_param, env_param):
             recv = v.origins_of_operand(ft["args"][0], at=v.at_term(fb))
             if not funds_derived(v, recv, info_param):
                 continue
-            for co in v.origins_of_operand(ft["args"][1], at=v.at_term(fb)):
-                if co.kind != "closure" or co.a not in model.fnsrc:
-                    continue
-                cv = model.view(co.a)
-                cb = int(co.b.rsplit(":bb", 1)[1])
-                chain = ((v.path, cb, "closure"),)
-                for sb, st in cv.iter_calls():
-                    if not re.search(r"as std::cmp::PartialEq(<.*>)?>::eq$", mname(st)) or len(st["args"]) != 2:
-                        continue
-                    at = cv.at_term(sb)
-                    oa = resolve(model, chain, cv, cv.origins_of_operand(st["args"][0], at=at), taint=True)
-                    ob = resolve(model, chain, cv, cv.origins_of_operand(st["args"][1], at=at), taint=True)
-                    el = lambda os_: any(((o.kind == "param" and o.b == cv.path and o.a == 2) or o.kind == "closure_arg")
-                                         and o.proj and o.proj[-1] == "amount" for o in os_)
-                    fl = lambda os_: any(o.kind == "param" and o.b == v.path and o.a == flow_param and "amount" in o.proj for o in os_)
-                    if (el(oa) and fl(ob)) or (el(ob) and fl(oa)):
-                        edges += cont
-                        desc.append("find(coin.amount == flow amount)? at bb%d" % fb)
+            if closure_ties(fb, ft):
+                edges += cont
+                desc.append("find(coin.amount == flow amount)? at bb%d" % fb)
+    # T1b: the same test as a branch: `if !funds.iter().any(|c| .. c.amount == flow_asset.amount) { return Err }`
+    for b, c, _ in switch_conds(v):
+        if c.kind == "call" and c.callee.endswith("as std::iter::Iterator>::any") and len(c.term["args"]) == 2:
+            recv = v.origins_of_operand(c.term["args"][0], at=v.at_term(c.block))
+            if funds_derived(v, recv, info_param) and closure_ties(c.block, c.term):
+                te, fe = cmp_true_false_edges(v, b, c)
+                edges += fe if c.neg else te
+                desc.append("any(coin.amount == flow amount) at bb%d" % c.block)
     # T3: comparison of a funds-derived amount with the declared amount
     for b, c, _ in switch_conds(v):
         if c.kind == "cmp" and c.op in ("==", "!="):
